@@ -8,16 +8,24 @@
  * malloc is wrapped (-Wl,--wrap=malloc) only to observe the size qstrreplace asks for. */
 #include "common.h"
 #include <signal.h>
+#include <ctype.h>
 #include "qlibc.h"
 
 #define FILL 0xAA
 
 static int g_rec = 0;           /* record malloc sizes? */
 static long g_last = -1;        /* size of the last recorded malloc */
+static long g_log[16]; static int g_nlog = 0;   /* all recorded sizes of one call, in order */
 void *__real_malloc(size_t n);
 void *__wrap_malloc(size_t n) {
-    if (g_rec) g_last = (long) n;
+    if (g_rec) { g_last = (long) n; if (g_nlog < 16) g_log[g_nlog++] = (long) n; }
     return __real_malloc(n);
+}
+static void rec_on(void) { g_last = -1; g_nlog = 0; g_rec = 1; }
+static void put_allocs(void) {
+    printf(" allocs ");
+    if (g_nlog == 0) printf("-");
+    for (int i = 0; i < g_nlog; i++) printf("%s%ld", i ? "," : "", g_log[i]);
 }
 
 /* a sanitizer abort or the watchdog must not lose the result lines already produced: the
@@ -25,6 +33,9 @@ void *__wrap_malloc(size_t n) {
 void __sanitizer_set_death_callback(void (*cb)(void)) __attribute__((weak));
 static void flush_out(void) { fflush(stdout); }
 static void on_alarm(int sig) { (void) sig; fflush(stdout); _exit(96); }
+/* UBSan's fatal path does not run the death callback: make it abort() and flush from SIGABRT */
+const char *__ubsan_default_options(void) { return "abort_on_error=1"; }
+static void on_abort(int sig) { (void) sig; fflush(stdout); _exit(98); }
 
 static void put_block(const void *p, size_t n) { puthex(stdout, p, n); }
 
@@ -48,6 +59,7 @@ int main(void) {
     setvbuf(stdout, NULL, _IOFBF, 1 << 16);
     if (__sanitizer_set_death_callback) __sanitizer_set_death_callback(flush_out);
     signal(SIGALRM, on_alarm);
+    signal(SIGABRT, on_abort);
     while ((len = getline(&line, &lcap, stdin)) > 0) {
         char *w[MAXW]; int nw = split_words(line, w);
         if (nw == 0) continue;
@@ -163,6 +175,72 @@ int main(void) {
             }
             l->free(l);
             free(s); free(del); free(a.p); free(d.p);
+        } else if (nw == 2 && !strcmp(op, "comma")) {
+            long v = strtol(w[1], NULL, 10);
+            rec_on();
+            char *r = qstr_comma_number((int) v);
+            g_rec = 0;
+            /* the block has exactly the recorded size: a write behind it traps under ASan */
+            if (r == NULL) printf("null"); else { printf("ok "); puthex(stdout, r, strlen(r)); printf(" alloc %ld", g_last); free(r); }
+        } else if (nw == 2 && (!strcmp(op, "ip4") || !strcmp(op, "email"))) {
+            bytes_t a; if (!unhex(w[1], &a)) { printf("bad-hex\n"); continue; }
+            char *s = cstr_exact(&a);
+            char *keep = cstr_exact(&a);
+            bool r = op[0] == 'i' ? qstr_is_ip4addr(s) : qstr_is_email(s);
+            printf(r ? "true" : "false");
+            if (memcmp(s, keep, a.n + 1) != 0) printf(" modified-argument");
+            free(s); free(keep); free(a.p);
+        } else if (nw == 3 && !strcmp(op, "test")) {
+            bytes_t a; if (!unhex(w[2], &a)) { printf("bad-hex\n"); continue; }
+            int (*fn)(int) = !strcmp(w[1], "alnum") ? isalnum : !strcmp(w[1], "alpha") ? isalpha
+                : !strcmp(w[1], "digit") ? isdigit : !strcmp(w[1], "space") ? isspace
+                : !strcmp(w[1], "upper") ? isupper : !strcmp(w[1], "lower") ? islower
+                : !strcmp(w[1], "xdigit") ? isxdigit : !strcmp(w[1], "punct") ? ispunct
+                : !strcmp(w[1], "print") ? isprint : !strcmp(w[1], "graph") ? isgraph
+                : !strcmp(w[1], "cntrl") ? iscntrl : !strcmp(w[1], "blank") ? isblank : NULL;
+            if (fn == NULL) { printf("bad-op\n"); free(a.p); continue; }
+            char *s = cstr_exact(&a);
+            printf(qstrtest(fn, s) ? "true" : "false");
+            free(s); free(a.p);
+        } else if ((nw == 3 || nw == 4) && !strcmp(op, "dupf")) {
+            /* dupf s X | dupf d N | dupf ss X Y  — formats "%s", "%d", "%s=%s" */
+            bytes_t a = {0, 0}, b = {0, 0};
+            char *x = NULL, *y = NULL, *r = NULL;
+            rec_on();
+            g_rec = 0;
+            if (!strcmp(w[1], "s") && nw == 3 && unhex(w[2], &a)) { x = cstr_exact(&a); rec_on(); r = qstrdupf("%s", x); }
+            else if (!strcmp(w[1], "d") && nw == 3) { rec_on(); r = qstrdupf("%d", (int) strtol(w[2], NULL, 10)); }
+            else if (!strcmp(w[1], "ss") && nw == 4 && unhex(w[2], &a) && unhex(w[3], &b)) { x = cstr_exact(&a); y = cstr_exact(&b); rec_on(); r = qstrdupf("%s=%s", x, y); }
+            else { printf("bad-op\n"); continue; }
+            g_rec = 0;
+            if (r == NULL) printf("null"); else { printf("ok "); puthex(stdout, r, strlen(r)); }
+            put_allocs();
+            free(r); free(x); free(y); free(a.p); free(b.p);
+        } else if ((nw == 5 || nw == 6) && !strcmp(op, "catf")) {
+            /* catf CAP DST s X | catf CAP DST d N | catf CAP DST ss X Y */
+            size_t cap = strtoul(w[1], NULL, 10);
+            bytes_t dstb, a = {0, 0}, b = {0, 0};
+            if (!unhex(w[2], &dstb)) { printf("bad-hex\n"); continue; }
+            if (cap < dstb.n + 1) cap = dstb.n + 1;
+            char *dst = block_cap(&dstb, cap), *x = NULL, *y = NULL, *r = NULL;
+            if (!strcmp(w[3], "s") && nw == 5 && unhex(w[4], &a)) { x = cstr_exact(&a); rec_on(); r = qstrcatf(dst, "%s", x); }
+            else if (!strcmp(w[3], "d") && nw == 5) { rec_on(); r = qstrcatf(dst, "%d", (int) strtol(w[4], NULL, 10)); }
+            else if (!strcmp(w[3], "ss") && nw == 6 && unhex(w[4], &a) && unhex(w[5], &b)) { x = cstr_exact(&a); y = cstr_exact(&b); rec_on(); r = qstrcatf(dst, "%s=%s", x, y); }
+            else { printf("bad-op\n"); free(dst); free(dstb.p); continue; }
+            g_rec = 0;
+            if (r == NULL) printf("null "); else if (r == dst) printf("ok "); else printf("badret ");
+            put_block(dst, cap);
+            put_allocs();
+            free(dst); free(x); free(y); free(dstb.p); free(a.p); free(b.p);
+        } else if (nw == 2 && !strcmp(op, "unique")) {
+            /* only the deterministic part: length and alphabet of the result */
+            bytes_t a; if (!unhex(w[1], &a)) { printf("bad-hex\n"); continue; }
+            char *seed = cstr_exact(&a);
+            char *r = qstrunique(a.n ? seed : NULL);
+            size_t n = strlen(r), bad = 0;
+            for (size_t i = 0; i < n; i++) if (!((r[i] >= '0' && r[i] <= '9') || (r[i] >= 'a' && r[i] <= 'f'))) bad++;
+            printf("ok %zu %zu", n, bad);
+            free(r); free(seed); free(a.p);
         } else {
             printf("bad-op");
         }
